@@ -273,6 +273,25 @@ func Yield() {
 	s.checkPoison()
 }
 
+// Sleep parks the current task for d of simulated time (the simulator's services use it for latencies; the
+// timer that wakes the task only makes it runnable, the scheduler still decides when it continues).
+//
+//go:norace
+func Sleep(d time.Duration) {
+	s := Active()
+	if s == nil {
+		time.Sleep(d)
+		return
+	}
+	if d <= 0 || s.poison.Load() {
+		Yield()
+		return
+	}
+	t := s.Cur()
+	time.AfterFunc(d, func() { s.MakeRunnable(t) })
+	s.Block(t, "sleep")
+}
+
 // Block parks the current task without making it runnable. The caller has registered t
 // somewhere from where MakeRunnable will be called.
 //
